@@ -207,8 +207,10 @@ interpolate_cubic(const LieGroupBase<_Derived>& ma,
     const Scalar h10 =  t3 - Scalar(2)*t2 + t;
     const Scalar h11 =  t3 - t2;
 
-    const auto l = ma.rplus(tab*h00).rplus(ta*h10);
-    const auto r = mb.rplus(tab*(-h01)).rplus(tb*h11);
+    // left curve: starts at ma (h01(0) = 0) and reaches mb (h01(1) = 1),
+    // right curve: starts at ma (h00(0) = 1) and reaches mb (h00(1) = 0).
+    const auto l = ma.rplus(tab*h01).rplus(ta*h10);
+    const auto r = mb.rplus(tab*(-h00)).rplus(tb*h11);
     const auto B = l.rminus(r);
 
     mc = r.rplus(B);
